@@ -260,7 +260,8 @@ MUTANTS = {
         m("exec-done-not-widened", Q, "        if \"DONE\" in job_statuses:\n            job_statuses.append(\"CACHED\")", "        if \"DONE\" in job_statuses:\n            pass", "C33.2"),
     ],
     "C34": [
-        m("parse-error-escapes", "redun/tags.py", "        except ValueError:\n            # Strings that look like malformed JSON (e.g. \"[abc\") must be quoted.\n            pass", "        except KeyError:\n            pass", "C34.1"),
+        m("parse-error-escapes", "redun/tags.py", "        except (ValueError, RecursionError):\n", "        except KeyError:\n", "C34.1"),
+        m("recursion-error-escapes", "redun/tags.py", "        except (ValueError, RecursionError):\n", "        except ValueError:\n", "C34.1"),
         m("raw-guard-weakened-to-isinstance", "redun/tags.py", "            if parse_tag_value(value) == value:", "            if isinstance(parse_tag_value(value), str):", "C34.2"),
         m("raw-without-reparse-test", "redun/tags.py", "            if parse_tag_value(value) == value:", "            if True:", "C34.2"),
         m("float-before-int", "redun/tags.py", "    try:\n        return int(value_str)\n    except ValueError:\n        pass\n\n    try:\n        return float(value_str)\n    except ValueError:\n        pass", "    try:\n        return float(value_str)\n    except ValueError:\n        pass\n\n    try:\n        return int(value_str)\n    except ValueError:\n        pass", "C34.3"),
